@@ -228,6 +228,7 @@ type Exec struct {
 	ords        map[*ssa.Function]map[ssa.Instruction]int
 	preludeText string          // all prelude text of this unit (symbols defined there are not re-declared)
 	applied     map[string]int  // contracts applied at call sites -> count
+	atCallSeen  map[string]bool // callees of atcall clauses that were called on some path
 	visits      int             // executed blocks (guards against runaway unrolling)
 	prog        *Program
 	staticRecv  types.Type      // receiver type of a statically dispatched interface call being applied
@@ -2072,6 +2073,12 @@ func (e *Exec) call0(st *State, c *ssa.Call) string {
 		key = "dynamic:" + c.Call.Value.Type().String()
 	}
 	if e.contract != nil {
+		if len(e.contract.AtCall[key]) > 0 {
+			if e.atCallSeen == nil {
+				e.atCallSeen = map[string]bool{}
+			}
+			e.atCallSeen[key] = true
+		}
 		for i, cl := range e.contract.AtCall[key] {
 			cc := e.newCtx(st)
 			// the callee's parameter names stand for the arguments of this call (they shadow the caller's names)
